@@ -6,6 +6,7 @@ EXTENDS Metrics, Json
 CONSTANTS MaxLen,    \* operations per history
           MaxLives,  \* process lives per history
           Small,     \* the small universe of the exhaustive run
+          Http,      \* include requests to the /metrics handler of the API
           Emit       \* print finished histories as JSON
 
 VARIABLES st, hist, done, lives, nh, seen
@@ -13,7 +14,7 @@ vars == <<st, hist, done, lives, nh, seen>>
 
 \* ---------------------------------------------------------------- the universe
 \* ids: a b a/b a_b /b B9 | 9a a-b "" "a b" "a\n"
-GoodIds == IF Small THEN {<<97>>, <<97, 47, 98>>, <<97, 95, 98>>}
+GoodIds == IF Small THEN {<<97, 47, 98>>, <<97, 95, 98>>}
            ELSE {<<97>>, <<98>>, <<97, 47, 98>>, <<97, 95, 98>>, <<47, 98>>, <<66, 57>>}
 BadIds == IF Small THEN {<<57, 97>>} ELSE {<<57, 97>>, <<97, 45, 98>>, <<>>, <<97, 32, 98>>, <<97, 10>>}
 \* label names: x y instance | 9x "" x-y ; values: 1 2 q" \ "" newline a,b={
@@ -26,13 +27,13 @@ Spaces == IF Small THEN {<<110, 115>>, <<110, 45, 115>>} ELSE {<<>>, <<110, 115>
 GNames == IF Small THEN {<<103>>} ELSE {<<103>>, <<120>>, <<57, 103>>}
 Insts == IF Small THEN {<<>>, <<105, 49>>} ELSE {<<>>, <<>>, <<105, 49>>, <<105, 50>>, <<105, 45, 49>>}
 InstSeq == IF Small THEN << <<>>, <<105, 49>> >> ELSE << <<>>, <<>>, <<105, 49>>, <<105, 49>>, <<105, 50>>, <<105, 45, 49>> >>
-IIDs == IF Small THEN {<<>>, <<73, 49>>} ELSE {<<>>, <<>>, <<73, 49>>, <<73, 50>>}
-IIDSeq == IF Small THEN << <<>>, <<73, 49>> >> ELSE << <<>>, <<>>, <<>>, <<73, 49>>, <<73, 50>> >>
+IIDs == IF Small THEN {<<>>} ELSE {<<>>, <<>>, <<73, 49>>, <<73, 50>>}
+IIDSeq == IF Small THEN << <<>> >> ELSE << <<>>, <<>>, <<>>, <<73, 49>>, <<73, 50>> >>
 Kinds == IF Small THEN {"counter", "gauge"} ELSE {"counter", "gauge", "fcounter", "hist"}
 KindSeq == IF Small THEN <<"counter", "gauge">> ELSE <<"counter", "counter", "counter", "gauge", "fcounter", "hist">>
-Perms == IF Small THEN {0, 1, 3} ELSE {0 - 1, 0, 1, 2, 3, 4}
-ReqPerms == IF Small THEN {1, 2, 4} ELSE {0, 1, 2, 3, 4}
-Levels == IF Small THEN {0, 2} ELSE {0, 1, 2}
+Perms == IF Small THEN {0, 3} ELSE {0 - 1, 0, 1, 2, 3, 4}
+ReqPerms == IF Small THEN {2, 4} ELSE {0, 1, 2, 3, 4}
+Levels == IF Small THEN {0} ELSE {0, 1, 2}
 
 Label(n, v) == [n |-> n, v |-> v]
 LabelSets == IF Small THEN {<<>>, <<Label(<<120>>, <<49>>)>>}
@@ -49,7 +50,7 @@ NewOps == { [Op("new") EXCEPT !.kind = k, !.id = i, !.labels = ls, !.perm = p, !
                               !.h = nh + 1, !.n = n, !.flag = f] :
               k \in PickSeq(KindSeq), i \in Pick(GoodIds \cup (IF Emit /\ RandomElement(1..5) > 1 THEN {} ELSE BadIds)),
               ls \in Pick(IF Emit /\ RandomElement(1..3) = 1 THEN {<<>>} ELSE LabelSets),
-              p \in Pick(Perms), l \in Pick(IF Emit /\ RandomElement(1..2) = 1 THEN {0} ELSE Levels), ps \in Pick(BOOLEAN),
+              p \in Pick(Perms), l \in Pick(IF Emit /\ RandomElement(1..2) = 1 THEN {0} ELSE Levels), ps \in Pick(IF Small THEN {TRUE} ELSE BOOLEAN),
               ii \in PickSeq(IIDSeq), n \in Pick(IF Small THEN {2} ELSE 0..3),
               f \in Pick(IF Small THEN {FALSE} ELSE {FALSE, FALSE, FALSE, FALSE, TRUE}) }
 \* a metric an earlier life registered, declared again in the same way (this is what persistence is about)
@@ -60,8 +61,8 @@ IncOps == { [Op("inc") EXCEPT !.h = h, !.n = n, !.g = g] :
               h \in Pick(Registered({"counter"})), n \in Pick(IF Small THEN {0, 1} ELSE {0, 1, 1, 2, 5, 50}),
               g \in Pick(IF Small THEN {1} ELSE {1, 1, 1, 2, 8}) }
 SetOps == { [Op("set") EXCEPT !.h = h, !.n = n] : h \in Pick(Registered({"gauge", "fcounter"})), n \in Pick(IF Small THEN {5} ELSE 0..7) }
-ExportOps == { [Op(name) EXCEPT !.perm = p, !.level = l, !.flag = f] :
-                 name \in Pick(IF Small THEN {"write", "list"} ELSE {"write", "write", "list", "values"} \cup (IF st.phase = "up" THEN {"http"} ELSE {})),
+ExportOps == { [Op(name) EXCEPT !.perm = IF name = "http" /\ p = 0 THEN 1 ELSE p, !.level = l, !.flag = f] :
+                 name \in Pick(IF Small THEN {"write", "list"} ELSE {"write", "list", "values"} \cup (IF st.phase = "up" /\ Http THEN {"http"} ELSE {})),
                  p \in Pick(ReqPerms), l \in Pick(IF Emit /\ RandomElement(1..2) = 1 THEN {2} ELSE Levels), f \in Pick(BOOLEAN) }
 EnableOps == { [Op("enable") EXCEPT !.key = k] : k \in Pick(IF Small THEN {1} ELSE {1, 2}), z \in {Len(hist)} }
 NsOps == { [Op("ns") EXCEPT !.id = s] : s \in Pick(Spaces), z \in {Len(hist)} }
@@ -74,9 +75,9 @@ Fams == CASE st.phase = "dead" -> <<"proc">>
           [] OTHER -> (IF Small THEN <<"new", "inc", "export", "enable", "stop">>
                        ELSE <<"new", "new", "new", "again", "again", "inc", "inc", "inc", "set", "export", "export", "export",
                               "enable", "enable", "stop", "kill", "ns", "glabel">>)
-OpsOf(f) == CASE f = "proc" -> {Op("proc")} [] f = "kill" -> {Op("proc")}
+OpsOf(f) == CASE f = "proc" -> {Op("proc")} [] f = "kill" -> (IF lives < MaxLives THEN {Op("proc")} ELSE {Op("stop")})
               [] f = "ns" -> NsOps [] f = "glabel" -> GlOps [] f = "start" -> StartOps
-              [] f = "new" -> NewOps [] f = "again" -> (IF seen = {} THEN NewOps ELSE AgainOps)
+              [] f = "new" -> (IF nh + 1 \in Handles THEN NewOps ELSE ExportOps) [] f = "again" -> (IF seen = {} THEN NewOps ELSE AgainOps)
               [] f = "inc" -> (IF Registered({"counter"}) = {} THEN NewOps ELSE IncOps)
               [] f = "set" -> (IF Registered({"gauge", "fcounter"}) = {} THEN NewOps ELSE SetOps)
               [] f = "export" -> ExportOps [] f = "enable" -> EnableOps [] f = "stop" -> {Op("stop")}
